@@ -524,12 +524,14 @@ func (r *WordRenderer) renderTable(node *extast.Table) (ast.WalkStatus, error) {
 	// 列对齐方式属于表格本身（只有表头的表格也有对齐方式）
 	alignments := node.Alignments
 	var emphases [][]int
+	var cellNodes [][]*extast.TableCell // 与tableData对应的单元格节点
 
 	// 遍历表头
 	for child := node.FirstChild(); child != nil; child = child.NextSibling() {
 		if row, ok := child.(*extast.TableHeader); ok {
 			var rowData []string
 			var rowEmphasis []int
+			var rowCells []*extast.TableCell
 			// 遍历表头单元格
 			for cellChild := row.FirstChild(); cellChild != nil; cellChild = cellChild.NextSibling() {
 				if cell, ok := cellChild.(*extast.TableCell); ok {
@@ -537,10 +539,12 @@ func (r *WordRenderer) renderTable(node *extast.Table) (ast.WalkStatus, error) {
 					rowData = append(rowData, cellText)
 					//表头默认粗体
 					rowEmphasis = append(rowEmphasis, 2)
+					rowCells = append(rowCells, cell)
 				}
 			}
 			tableData = append(tableData, rowData)
 			emphases = append(emphases, rowEmphasis)
+			cellNodes = append(cellNodes, rowCells)
 		}
 	}
 
@@ -549,6 +553,7 @@ func (r *WordRenderer) renderTable(node *extast.Table) (ast.WalkStatus, error) {
 		if row, ok := child.(*extast.TableRow); ok {
 			var rowData []string
 			var rowEmphasis []int
+			var rowCells []*extast.TableCell
 			if len(alignments) == 0 {
 				// 从第一行获取对齐方式
 				alignments = row.Alignments
@@ -559,12 +564,19 @@ func (r *WordRenderer) renderTable(node *extast.Table) (ast.WalkStatus, error) {
 				if cell, ok := cellChild.(*extast.TableCell); ok {
 					cellText := r.extractTextContent(cell)
 					rowData = append(rowData, cellText)
-					emphasis := extractCellEmphasis(cell)
+					// 含内联格式的单元格在表格创建后按run逐段设置格式（见下），
+					// 不再把最后一个强调的格式套用到整个单元格
+					emphasis := 0
+					if !hasInlineMarkup(cell) {
+						emphasis = extractCellEmphasis(cell)
+					}
 					rowEmphasis = append(rowEmphasis, emphasis)
+					rowCells = append(rowCells, cell)
 				}
 			}
 			tableData = append(tableData, rowData)
 			emphases = append(emphases, rowEmphasis)
+			cellNodes = append(cellNodes, rowCells)
 		}
 	}
 
@@ -602,6 +614,19 @@ func (r *WordRenderer) renderTable(node *extast.Table) (ast.WalkStatus, error) {
 			err := table.SetRowAsHeader(0, true)
 			if err != nil && r.opts.ErrorCallback != nil {
 				r.opts.ErrorCallback(NewConversionError("TableHeader", "failed to set table header", 0, 0, err))
+			}
+		}
+
+		// 单元格中的强调、代码、删除线等内联格式
+		for rowIdx, rowCells := range cellNodes {
+			for colIdx, cell := range rowCells {
+				if !hasInlineMarkup(cell) || rowIdx >= len(table.Rows) || colIdx >= len(table.Rows[rowIdx].Cells) {
+					continue
+				}
+				paras := table.Rows[rowIdx].Cells[colIdx].Paragraphs
+				if len(paras) > 0 && len(paras[0].Runs) > 0 {
+					r.replaceRunWithInlines(cell, &paras[0], 0)
+				}
 			}
 		}
 
